@@ -5,6 +5,9 @@ first measures of every length x first time point 0 or 2 x musical-beat historie
 the real `Part.quarter_map`, `inv_quarter_map`, `beat_map`, `inv_beat_map` and
 `quarter_duration_map` are executed at every integer position, every half position and just
 left/right of every change point, and compared with an exact reference (mc/c02_ref.py).
+The sub-space fine-pickups repeats the pickup family at fine time resolution (hundreds to thousands of
+divisions per quarter, first measure a few ticks short of / equal to / longer than the full bar, large first
+time points); there the maps are compared on a grid and around every change point instead of at every tick.
 
 Clauses (sentence of the statement that licenses them):
   quarter-exact / beat-exact     "a stretch of d divisions under quarter duration q lasts d/q quarters
@@ -47,6 +50,11 @@ ASSUMPTIONS = [
     "mode; a non-empty dict while already enabled) are not generated",
     "edits of a part never set a quarter duration that is already in force at a time without a change point "
     "(documented as redundant and dropped; its interplay with later edits is C01's subject)",
+    "fine-pickups: a first measure that misses more than 0 but less than 2e-5 of the nominal bar is not generated "
+    "(the pickup test of the implementation is relative, numpy.isclose defaults; reached only beyond ~16000 "
+    "divisions per quarter; proposed_fixes/C02-s-pickup-resolution.diff lifts the limit)",
+    "the inverse maps are fed exact reference values only where these lie inside the range of values by more than "
+    "the tolerance the forward values are compared with",
     "values outside [first point, last point] are not compared (the statement quantifies over positions "
     "between the first and last time point)",
 ]
@@ -154,9 +162,36 @@ def apply_op(part, op):
 # oracle
 
 
-def positions_of(ref):
-    """every integer position, every half position, and both sides of every change point"""
+def _exact(p):
+    """the position a float call really receives (Fraction of the nearest float64)"""
+    return Fraction(float(p))
+
+
+def marks_around(marks, lo, hi):
+    """fine-resolution timelines: both neighbours (1 and 2 ticks, half a tick, EPS) of every mark"""
+    ps = set()
+    for c in marks:
+        for d in (-2, -1, Fraction(-1, 2), -EPS, 0, EPS, Fraction(1, 2), 1, 2):
+            p = _exact(c + d)
+            if lo <= p <= hi:
+                ps.add(p)
+    return ps
+
+
+def positions_of(ref, grid=None):
+    """every integer position, every half position, and both sides of every change point.
+    With `grid` (fine-resolution timelines, thousands of ticks per bar): every multiple of grid/2 counted
+    from the first point, and the neighbours (+-2, +-1, +-1/2 tick, +-EPS) of the first and last point, of
+    every change point and of the end of the first measure."""
     t0, last = ref.t0, ref.last
+    if grid:
+        marks = set(ref.change_points("b")) | set(ref.cuts)
+        if ref.m is not None:
+            marks |= {x for x in ref.m if t0 <= x <= last}
+        ps = marks_around(marks, t0, last)
+        step = max(grid // 2, 1)
+        ps |= {Fraction(t) for t in range(t0, last + 1, step)}
+        return sorted(ps)
     ps = set()
     for t in range(t0, last + 1):
         ps.add(Fraction(t))
@@ -193,16 +228,17 @@ def _fl(xs):
 class MapCheck(object):
     """compares one forward/inverse pair with the reference under every accepted reading"""
 
-    def __init__(self, res, ref, case, ctx):
+    def __init__(self, res, ref, case, ctx, grid=None):
         import numpy as np
 
+        self.grid = grid
         self.res = res
         self.ref = ref
         self.case = case
         self.ctx = ctx
         self.calls = 0
         self.origin_seen = None
-        self.pos = positions_of(ref)
+        self.pos = positions_of(ref, grid)
         self.xs = np.array(_fl(self.pos), dtype=float)
         self.idx = {p: i for i, p in enumerate(self.pos)}
         self.interior = [i for i, p in enumerate(self.pos) if ref.t0 < p < ref.last]
@@ -273,15 +309,22 @@ class MapCheck(object):
         idx = self.idx
         for c in ref.change_points(unit):
             for a, b in ((c - EPS, Fraction(c)), (Fraction(c), c + EPS)):
+                if self.grid:
+                    a, b = _exact(a), _exact(b)
                 if a in idx and b in idx:
                     jump = abs(float(got[idx[b]]) - float(got[idx[a]]))
-                    if not jump <= float(EPS) * mr * 1.001 + 1e-9 * max(1.0, abs(float(expf[idx[b]]))):
+                    if not jump <= float(b - a) * mr * 1.001 + 1e-9 * max(1.0, abs(float(expf[idx[b]]))):
                         self.fail(name + "-continuous", "jump <= %g" % (float(EPS) * mr), jump, fwd_name,
                                   "at change point %d" % c)
         if not inverse:
             return
         # inverse: inv(fwd(t)) == t at every position, inv(exact value) == t at interior positions
-        interior = self.interior
+        # (interior = strictly inside the range of values by more than the tolerance the forward values are
+        # compared with: next to the first/last point a value within that tolerance of the end value may fall
+        # outside the domain of the inverse)
+        lo_v = float(expf[0]) + 2 * TOL * max(1.0, abs(float(expf[0])))
+        hi_v = float(expf[-1]) - 2 * TOL * max(1.0, abs(float(expf[-1])))
+        interior = [i for i in self.interior if lo_v < float(expf[i]) < hi_v]
         try:
             inv = part.inv_quarter_map if unit == "q" else part.inv_beat_map
             back = np.asarray(inv(got), dtype=float)
@@ -342,15 +385,21 @@ class MapCheck(object):
         ref = self.ref
         divs = ref.divs
         hi = max(ref.last, max(t for t, _ in divs)) + 2
-        pos = []
-        for t in range(0, hi + 1):
-            pos.append(Fraction(t))
-            pos.append(Fraction(2 * t + 1, 2))
-        for t, _ in divs:
-            if t > 0:
-                pos.append(t - EPS)
-            pos.append(t + EPS)
-        pos = sorted(set(pos))
+        if self.grid:
+            # fine-resolution timelines: neighbours of time 0, of the first/last point and of every table entry
+            pos = sorted(marks_around({0, ref.t0, ref.last, hi} | {t for t, _ in divs}, 0, hi))
+            scal_ts = [int(p) for p in pos if p.denominator == 1]
+        else:
+            pos = []
+            for t in range(0, hi + 1):
+                pos.append(Fraction(t))
+                pos.append(Fraction(2 * t + 1, 2))
+            for t, _ in divs:
+                if t > 0:
+                    pos.append(t - EPS)
+                pos.append(t + EPS)
+            pos = sorted(set(pos))
+            scal_ts = range(0, hi + 1)
         exp = [qdur_at(divs, p) for p in pos]
         try:
             qm = part.quarter_duration_map
@@ -361,7 +410,7 @@ class MapCheck(object):
                 self.fail("quarter-duration-map", {"t": float(pos[bad[0]]), "divs": exp[bad[0]]} if bad else exp,
                           got.tolist(), "Part.quarter_duration_map", "array call, table %r" % (divs,))
                 return
-            for t in range(0, hi + 1):
+            for t in scal_ts:
                 v = qm(t)
                 self.calls += 1
                 if np.size(v) != 1 or float(np.asarray(v).reshape(-1)[0]) != qdur_at(divs, t):
@@ -436,7 +485,8 @@ def eval_case(case):
             done.append(edits[k - 1])
             calls += 1
         ref = RefMaps(cur)
-        mc = MapCheck(res, ref, cur, "mode=notated" + (" after edits %r -> %r" % (done, cur) if done else ""))
+        mc = MapCheck(res, ref, cur, "mode=notated" + (" after edits %r -> %r" % (done, cur) if done else ""),
+                      grid=case.get("grid"))
         mc.quarter_duration_map(part)
         mc.pair(part, "q", None, scalars=(k == 0))
         oq = mc.origin_seen
@@ -450,7 +500,7 @@ def eval_case(case):
     mode = ModeModel(cur["ts"])
     qvals = None
     if hist and not res.violations:
-        xs = np.array([float(t) for t in range(ref.t0, ref.last + 1)])
+        xs = mc.xs if case.get("grid") else np.array([float(t) for t in range(ref.t0, ref.last + 1)])
         qvals = np.asarray(part.quarter_map(xs), dtype=float)
     pre = " after edits %r -> %r" % (done, cur) if done else ""
     for k, op in enumerate(hist):
@@ -812,12 +862,69 @@ def gen_meters(scope):
                                 yield dict(t0=t0, last=last, divs=divs, ts=ts, m=m, hist=meter_history(ts, b, bt), hid="A%d/%d" % (b, bt))
 
 
-GENS = [("quarter-tables", gen_quarter), ("signature-tables", gen_ts), ("mixed-changes", gen_mixed),
+# The pickup test of the tree under test compares the length of the first measure with the nominal bar up to a
+# relative closeness (numpy.isclose defaults, 1e-5 of the bar + 1e-8) so that a full bar whose interpolated length
+# suffers from float rounding is not taken for a pickup.  A first measure that misses less than FINE_REL of the
+# bar is therefore not generated (known limit of the implementation, reached only beyond ~16000 divisions per
+# quarter; see proposed_fixes/C02-s-pickup-resolution.diff) - everything else is.
+FINE_REL = Fraction(0)  # (was 2e-5: the relative pickup test is repaired in /repo a21c652, nothing is left out any more)
+FINE_CORE = (480, 960, 10080)
+FINE_FULL = (24, 96, 120, 256, 384, 480, 768, 960, 1024, 1920, 3840, 5040, 10080, 15360, 20160, 40320, 302400)
+BIG_OFFSET = 2 ** 24 + 1
+
+
+def gen_fine(scope):
+    """fine time resolution (magnitude dimension of the pickup family): F divisions per quarter with F in the
+    hundreds or thousands; first measure shorter than the full bar by k ticks (k = 0: full bar, k < 0:
+    over-full), very short pickups and pickups of half a quarter / half a bar"""
+    if scope == "core":
+        Fs, ks, t0s = FINE_CORE, (-1, 0, 1, 2, 3, 4, 7, 24), ("0", "2F+1")
+    else:
+        Fs, ks, t0s = FINE_FULL, (-2, -1, 0, 1, 2, 3, 4, 5, 6, 7, 10, 24, 50, 101), ("0", "2F+1", "big")
+    for F in Fs:
+        for b, bt in METERS:
+            barq = Fraction(4 * b, bt)
+            full_a = int(barq * F)
+            assert full_a == barq * F
+            # A: constant resolution; B: the first quarter at double resolution; C: the last ticks of the bar at
+            # triple resolution (a tick is not the same length everywhere in the bar)
+            tabs = (
+                ([[0, F]], full_a),
+                ([[0, 2 * F], [2 * F, F]], full_a + F),
+                ([[0, F], [full_a - 2, 3 * F]], full_a + 4),
+            )
+            for tab, full in tabs:
+                ends = {full - k for k in ks} | {1, 2, F // 2, full // 2}
+                for tk in t0s:
+                    for style in (("ctor",) if tk != "2F+1" else (("set",) if scope == "core" else ("ctor", "set"))):
+                        t0 = {"0": 0, "2F+1": 2 * F + 1, "big": BIG_OFFSET}[tk]
+                        last = t0 + full + 2 * F + 3
+                        divs = shift_divs(tab, t0, style)
+                        ts = [[t0, b, bt]]
+                        ref = RefMaps(dict(t0=t0, last=last, divs=divs, ts=ts, m=None))
+                        for e in sorted(ends):
+                            if not 0 < e < last - t0:
+                                continue
+                            miss = 1 - ref.raw(t0 + e, "q") / barq
+                            if 0 < miss < FINE_REL:
+                                continue
+                            yield dict(t0=t0, last=last, divs=divs, ts=ts, m=[t0, t0 + e], grid=F,
+                                       hist=universal_history(ts), hid="U")
+
+
+GENS = [("fine-pickups", gen_fine), ("quarter-tables", gen_quarter), ("signature-tables", gen_ts), ("mixed-changes", gen_mixed),
         ("beat-mode-histories", gen_modes), ("edited-parts", gen_edits), ("edge-shapes", gen_edge),
         ("meter-alphabet", gen_meters)]
 NBLOCKS = 24
 
 BOUNDS = {
+    "fine-pickups": "fine time resolution: F divisions per quarter (constant / first quarter at 2F / last two ticks of "
+                    "the first bar at 3F), one signature out of 10 meters, first point 0 | 2F+1 | 2**24+1, first measure "
+                    "ending k ticks before the full bar (k=0 full, k<0 over-full) or after 1, 2, F/2, bar/2 ticks, one more "
+                    "measure of 2 quarters + 3 ticks, universal 4-step beat-mode history; maps compared at every multiple of "
+                    "F/2 and at +-2, +-1, +-1/2 tick, +-1e-6 around the first/last point, every change point and the end of "
+                    "the first measure; first measures missing less than 2e-5 of the bar (> 0) not generated (pickup test "
+                    "of the implementation is relative, proposed_fixes/C02-s-pickup-resolution.diff)",
     "quarter-tables": "first point 0|2 (table from time 0 or set at the first point), length 6, <=2 interior "
                       "quarter changes at every position pair, values differ from predecessor, one signature, "
                       "first measure none or ending at every position, universal 4-step beat-mode history",
@@ -841,6 +948,7 @@ BOUNDS = {
                       "via set_musical_beat_per_ts({}), notated, user value for the meter under test only",
 }
 CORE_TXT = {
+    "fine-pickups": "core: F in {480, 960, 10080}, k in {-1,0,1,2,3,4,7,24}, first point 0 or 2F+1 (table set at the first point)",
     "quarter-tables": "core: divisions {1,2,3}, meters 4/4 6/8 5/8 3/2, first point 2 only with the table set at the first point",
     "signature-tables": "core: divisions {1,2}; 1 change over 4/4 6/8 5/8 3/2, 2 changes over 4/4 6/8 3/2",
     "mixed-changes": "core: divisions q0 {1,2} -> {1,2,3}, meters 4/4 6/8 3/2; 2x2 with two fixed value sequences",
@@ -851,6 +959,8 @@ CORE_TXT = {
                       "point 0, divisions 2",
 }
 FULL_TXT = {
+    "fine-pickups": "F in {24,96,120,256,384,480,768,960,1024,1920,3840,5040,10080,15360,20160}, k in {-2..7,10,24,50,101}, "
+                    "first point 0, 2F+1 (table from time 0 or set at the first point), 2**24+1 (table from time 0)",
     "quarter-tables": "divisions {1,2,3,4,6}, all 10 meters, plus 3 changes (t0=0, 3 meters, 4 measures)",
     "signature-tables": "divisions {1,2,3}; 1 change over all 10 meters, 2 changes over 4/4 6/8 5/8 3/2 9/8",
     "mixed-changes": "q0 {1,2,3} -> {1,2,3,4,6}, meters 4/4 6/8 5/8 3/2 9/8; 2x2 over divisions {1,2,3} and 4/4 6/8 3/2",
